@@ -396,6 +396,8 @@ func gen(seed uint64, tier string) {
 	cycleCases(r, n/20, emit)
 	manyMembers(r, emit)
 	emptyMemberCases(r, n/60, emit)
+	affineCases(r, n/25, emit)
+	quadCases(r, n/25, emit)
 }
 
 // scaleFor picks the coordinate scale of a case: mostly 1, otherwise a power of two.
